@@ -209,6 +209,16 @@ func main() {
 	for _, sc := range families() {
 		runOne(sc, 0)
 	}
+	// exhaustive small scope: every join-after-leave sequence over 3 subscriber slots
+	churnLen := 7
+	if f.Tier == "thorough" {
+		churnLen = 8
+	}
+	for _, seq := range churnSequences(churnLen, 3) {
+		runOne(churnScenario("churn-exhaustive", seq), 0)
+	}
+	res.Exhaustive = false // exhaustive only for the churn family (see distribution family:churn-exhaustive)
+	res.Note(fmt.Sprintf("churn family is exhaustive: all valid sequences over {Subscribe, cancel(i), Broadcast} of length <= %d with <= 3 subscribers that contain a join after a leave and end with a Broadcast", churnLen))
 	nrand := 120
 	if f.Tier == "thorough" {
 		nrand = 1200
@@ -217,6 +227,11 @@ func main() {
 		nrand *= 3
 	}
 	r := lib.NewRand(f.Seed)
+	for i := 0; i < nrand/2; i++ {
+		cs := r.Fork()
+		seed := cs.S
+		runOne(randomChurn(cs, cs.Range(6, 12)), seed)
+	}
 	for i := 0; i < nrand; i++ {
 		cs := r.Fork()
 		seed := cs.S
